@@ -96,7 +96,7 @@ CASES = [
 ''', '')]),
     dict(name='m-cas-success-no-dec', kind='mutant', props=['C02', 'C05', 'C04'], expect=['C02'],
          edits=[(H, '''                T::dec(old.as_ptr());
-                return old;''', '''                return old;''')]),
+                // See above.''', '''                // See above.''')]),
     dict(name='m-rwlock-cas-fail-no-inc', kind='mutant', props=['C14', 'C02', 'C05'], expect=['C14', 'C02'],
          edits=[(RW, '''            T::inc(&old);
         }''', '''        }''')]),
@@ -481,5 +481,20 @@ CASES += [
          edits=[(H, 'core::mem::forget(new);', 'T::into_ptr(new);')]),
     dict(name='m-into-ptr-after-handover', kind='mutant', props=['C01', 'C03'], expect=['C01', 'C03'],
          edits=[(HP, 'core::mem::forget(replacement);', 'T::into_ptr(replacement);')]),
+]
+
+CASES += [
+    # revert of fix: a417e9e (the pointer a failed exchange of the RwLock<()> strategy hands back is read Relaxed)
+    dict(name='m-rwlock-cas-fail-relaxed', kind='mutant', props=['C07', 'C14'], expect=['C07'],
+         edits=[(RW, 'Ordering::AcqRel, Ordering::Acquire);', 'Ordering::AcqRel, Ordering::Relaxed);')]),
+    # revert of fix: 1f3ee2a (user-supplied values destroyed while the answer sits in the return place), one case per site
+    dict(name='m-return-slot-cas', kind='mutant', props=['C18', 'C05'], expect=['C18'],
+         edits=[(H, '''                drop(new);
+                drop(current);
+                return old;''', '''                return old;''')]),
+    dict(name='m-return-slot-rcu', kind='mutant', props=['C18', 'C06'], expect=['C18'],
+         edits=[(LB, '''                drop(cur);
+                drop(f);
+                return prev;''', '''                return prev;''')]),
 ]
 
